@@ -291,7 +291,7 @@ func (g *G) genGrid(id string) *History {
 		cur = at
 		var hdr Hdr
 		if cc := g.genReqCC(); len(cc) > 0 {
-			hdr = append(hdr, [2]string{"Cache-Control", ccJoin(cc)})
+			hdr = append(hdr, g.ccLines(cc)...)
 		}
 		if g.chance(0.05) {
 			hdr = append(hdr, [2]string{"If-None-Match", `"client"`})
@@ -303,4 +303,15 @@ func (g *G) genGrid(id string) *History {
 		cur += max(fg.DelayNs, bg.DelayNs)
 	}
 	return h
+}
+
+// ccLines: the request directives as one Cache-Control field line or, sometimes, as several
+// (RFC 9110 §5.3: the lines of a field are one comma-separated list); a more aggressive request
+// puts the directive that matters last
+func (g *G) ccLines(cc []string) Hdr {
+	if len(cc) < 2 || !g.chance(0.3) {
+		return Hdr{{"Cache-Control", ccJoin(cc)}}
+	}
+	cut := 1 + g.r.Intn(len(cc)-1)
+	return Hdr{{"Cache-Control", ccJoin(cc[:cut])}, {"Cache-Control", ccJoin(cc[cut:])}}
 }
